@@ -36,3 +36,23 @@ def make_registrations():
     register_opcode_patch(BytesModuloInterceptor())
 
 make_registrations()
+
+
+# --- work-around: CrossHair looks up contracts of every callee through inspect.getclosurevars(),
+# which raises "ValueError: Cell is empty" for a nested function that closes over a name bound
+# only on another branch (Index.scanner's `iterator` closes over `next_match`, unbound on the
+# no-match branch).  CPython itself never reads that cell on this branch; fall back to the
+# function's globals so that the callee is simply executed.
+import crosshair.fnutil as _fu
+
+_orig_fn_globals = _fu.fn_globals
+
+
+def _fn_globals(fn):
+    try:
+        return _orig_fn_globals(fn)
+    except ValueError:
+        return getattr(fn, "__globals__", {})
+
+
+_fu.fn_globals = _fn_globals
